@@ -514,6 +514,25 @@ def check_C13(tier: str, seed: int) -> int:
             end = end_of_last_frame(data)
             for m in range(len(data) + 1):
                 cases.append((w.put(data[:m], "cut"), name, m, m < end))
+        # payloads larger than any block size a reader might use (64 KiB, 8 KiB): an uncompressed cel / a compressed cel / an ignorable
+        # chunk of about 70-160 KB as the last chunk; cut offsets sampled (every block boundary +-1, the last 40 offsets, a stride)
+        bigs = []
+        for k, (cw, chh) in enumerate([(132, 130), (200, 200)]):
+            px = bytes((i * 7 + (i >> 8)) & 255 for i in range(cw * chh * 4))
+            for ct in (0, 2):
+                fr = ase.Frame(chunks=[ase.LayerChunk(name="a"), ase.CelChunk(layer=0, w=cw, h=chh, pixels=px, ctype_cel=ct, zlevel=0)])
+                bigs.append(("big%d_cel%d" % (k, ct), ase.serialize(ase.Sprite(width=4, height=4, frames=[ase.Frame(), fr]))))
+        bigs.append(("big_mask", ase.serialize(ase.Sprite(width=1, height=1, frames=[ase.Frame(chunks=[ase.LayerChunk(), ase.RawChunk(ase.CT_MASK, b"m" * 70000)])]))))
+        for name, data in bigs:
+            end = end_of_last_frame(data)
+            cuts = set(range(max(0, len(data) - 40), len(data) + 1)) | set(range(0, len(data), 4093 if tier == "quick" else 509))
+            for blk in (8192, 65536):
+                for q in range(1, len(data) // blk + 1):
+                    cuts |= {q * blk - 1, q * blk, q * blk + 1}
+                    # the same distances measured from the start of the last chunk's payload
+                    cuts |= {len(data) - q * blk - 1, len(data) - q * blk, len(data) - q * blk + 1}
+            for m in sorted(c for c in cuts if 0 <= c <= len(data)):
+                cases.append((w.put(data[:m], "cut"), name, m, m < end))
         paths = [c[0] for c in cases]
         ib = vplib.impl_observe("release", paths, w.dir, 1)
         mb = vplib.model_observe(paths, w.dir, 1)
@@ -1392,7 +1411,11 @@ def check_C18(tier: str, seed: int) -> int:
                     a = {"random": rng.randrange(256), "rowalpha": row_a[y], "colalpha": col_a[x], "alpha0": 0,
                          "fewvalues": rng.choice([0, 255])}[style]
                     px.append(rgb | (a << 24))
-            lines.append("E %d %d %s" % (wd, ht, " ".join(map(str, px))))
+            if i % 4 == 3:
+                # the image's container is longer than 4 * w * h bytes (a reused buffer): the extra bytes are not pixels
+                lines.append("EP %d %d %d %s" % (wd, ht, rng.choice([1, 4, 4 * wd, 4 * wd + 3, 64]), " ".join(map(str, px))))
+            else:
+                lines.append("E %d %d %s" % (wd, ht, " ".join(map(str, px))))
             meta.append(("E", wd, ht, px))
         # palettes with duplicates and indices >= 256
         for i in range(n):
